@@ -332,10 +332,10 @@ def run_case(case, res):
 def cases_for(tier):
     q = tier == 'quick'
     cases = [dict(history=h, all_positions=not q) for h in HISTORIES]
-    bound = 1 if q else 2
     for scn in ('tx-proofs', 'header-proofs', 'warm-then-reorg'):
-        for i in range(5):
-            cases.append(dict(scenario=scn, bound=bound, shard=[i, 5]))
+        n = 5 if q else 16
+        for i in range(n):
+            cases.append(dict(scenario=scn, bound=1 if q else 2, shard=[i, n]))
     return cases
 
 
